@@ -77,6 +77,9 @@ type Config struct {
 
 	// TTL is the time that key written with ttl will live
 	TTL time.Duration
+
+	// TTLPrefix is the prefix of the raw keys that are written with ttl
+	TTLPrefix []byte
 }
 
 // Range implements Scanner interface
@@ -281,6 +284,7 @@ func (r *scanner) scan(ctx context.Context, start []byte, end []byte, revision u
 				compact:         compact,
 				tombstone:       r.config.Tombstone,
 				timeoutRevision: timeoutRevision,
+				ttlPrefix:       r.config.TTLPrefix,
 			}, store, r.coder, r.metricCli)
 
 			// run worker
@@ -352,6 +356,9 @@ type workerConfig struct {
 
 	// timeoutRevision indicate the revision that kvs with ttl were updated at is timeout
 	timeoutRevision uint64
+
+	// ttlPrefix is the prefix of the raw keys that are written with ttl
+	ttlPrefix []byte
 }
 
 func newWorker(conf workerConfig, store storage.KvStorage, coder coder.Coder, metricCli metrics.Metrics) *worker {
@@ -586,7 +593,7 @@ func (w *worker) compactIfExpired(iter storage.Iter, rawKey []byte, revision uin
 		w.timeoutRevision == 0 {
 		return false, nil
 	}
-	if bytes.Contains(rawKey, []byte("/events/")) {
+	if len(w.ttlPrefix) > 0 && bytes.HasPrefix(rawKey, w.ttlPrefix) {
 		//? consider two type of compact now:
 		//? 1. delete directly from storage engine (use this one right now)
 		//? 2. set tombstone and delete util next compaction loop
